@@ -358,21 +358,33 @@ def passthrough_case(rec, rng):
             rec.ev()
             rec.count("passthrough.calls")
             case = {"kind": "passthrough", "name": name}
-            with audit.Trace([root]) as tr:
-                with U.compress(p) as tf:
-                    same1 = tf == p
-                    with open(tf, "wb") as fh:
-                        fh.write(b"payload")
-                with U.decompress(p) as tf:
-                    same2 = tf == p
-                    data = open(tf, "rb").read()
-            if not (same1 and same2 and data == b"payload" and os.path.exists(p)
-                    and open(p, "rb").read() == b"payload"):
+            # a suffix spelling a format in upper case is not an advertised format: passing the name
+            # through and treating it as that format both satisfy the statement - what must hold either
+            # way is that the bytes written are the bytes read and that the data is stored under the name
+            strict = name.rsplit(".", 1)[-1].lower() not in ("gz", "bz2", "zip", "xz")
+            same1 = same2 = data = None
+            try:
+                with audit.Trace([root]) as tr:
+                    with U.compress(p) as tf:
+                        same1 = tf == p
+                        with open(tf, "wb") as fh:
+                            fh.write(b"payload")
+                    with U.decompress(p) as tf:
+                        same2 = tf == p
+                        data = open(tf, "rb").read()
+            except Exception as exc:
+                rec.violation("passthrough", case, {"exception": repr(exc), "stored": os.path.exists(p)})
+                if os.path.exists(p):
+                    os.remove(p)
+                continue
+            if data != b"payload" or not os.path.exists(p):
+                rec.violation("passthrough", case, {"read": repr(data), "stored": os.path.exists(p)})
+            elif strict and not (same1 and same2 and open(p, "rb").read() == b"payload"):
                 rec.violation("passthrough", case, {"same": [same1, same2]})
-            if sorted(os.listdir(root)) != sorted(set(os.listdir(root)) & {n for n in os.listdir(root)}):
-                pass
-            if tr.written() - {p}:
+            if strict and tr.written() - {p}:
                 rec.violation("write-set", case, {"paths": sorted(tr.written() - {p})[:4]})
+            if not strict:
+                rec.count("passthrough.uppercase_suffix")
             os.remove(p)
         if os.listdir(root):
             rec.violation("debris", {"kind": "passthrough"}, {"left": os.listdir(root)})
